@@ -14,6 +14,7 @@ package main
 //	      the backend with their stream, final state of transport and CloseNotify channel.
 
 import (
+	"sync/atomic"
 	"encoding/hex"
 	"fmt"
 	"io"
@@ -174,10 +175,19 @@ func execSctpServe(toks []string) string {
 	defer diam.VerifReleaseSCTPConn(msc)
 	var mu sync.Mutex
 	var events []string
+	var active int32
 	h := diam.HandlerFunc(func(c diam.Conn, m *diam.Message) {
+		// one association is one connection: its handlers run one at a time, whatever the streams
+		if atomic.AddInt32(&active, 1) > 1 {
+			mu.Lock()
+			events = append(events, "OVERLAP")
+			mu.Unlock()
+		}
+		defer atomic.AddInt32(&active, -1)
 		mu.Lock()
 		events = append(events, fmt.Sprintf("h:%d:%d", m.MessageStream(), m.Header.HopByHopID))
 		mu.Unlock()
+		time.Sleep(150 * time.Microsecond)
 		if m.Header.CommandFlags&diam.RequestFlag != 0 {
 			a := m.Answer(2001)
 			a.NewAVP(264, 0x40, 0, datatype.DiameterIdentity("srv"))
